@@ -247,6 +247,19 @@ func (e *c10env) ops() []c10op {
 			}
 			return n, ent, false
 		}},
+		{"lookup: New(name) of an existing child, whatever call created it", func(e *c10env, t *mnode) (*mnode, *slog.Entry, bool) {
+			// lookup by the name a direct child CARRIES (children made by New() without a name or by a With call carry a
+			// generated one): New(name) returns that child
+			if len(t.children) == 0 {
+				return nil, t.e, false
+			}
+			want := t.children[r.Intn(len(t.children))]
+			ent := t.e.New(want.name)
+			if ent != want.e {
+				e.skipClash = fmt.Sprintf("WithWriter(nil) New(%q) on %s did not return the existing direct child of that name (a second child of that name was created: %v)", want.name, t.name, ent.Parent() == t.e && ent.Name() == want.name)
+			}
+			return nil, t.e, false
+		}},
 		{"New(anonymous)", func(e *c10env, t *mnode) (*mnode, *slog.Entry, bool) {
 			var ent *slog.Entry
 			if r.Bool() {
@@ -679,6 +692,10 @@ func c10tree(c *Ctx) {
 			c.R.JournalNote(history[len(history)-1])
 			created, ret, mutates := op.apply(e, t)
 			c.R.Add("operations", 1)
+			if strings.HasPrefix(e.skipClash, "WithWriter(nil) New(") {
+				fail("new-lookup", strings.TrimPrefix(e.skipClash, "WithWriter(nil) "))
+				return
+			}
 			if strings.HasPrefix(e.skipClash, "WithWriter(nil)") {
 				fail("with-creates-child-of-receiver", e.skipClash)
 				return
